@@ -5,6 +5,7 @@ prints one observation line per step.  Imports Model + Spec + Lean.Data.Json onl
 import Orda.Codec
 import Orda.Model.Api
 import Orda.Spec.Denote
+import Orda.Model.Server
 open Lean
 namespace Orda
 
@@ -17,6 +18,14 @@ structure Sim where
   aid : Array Nat := #[]                   -- author identity (a snapshot twin carries its source's)
   applied : Array (List Op) := #[]         -- per replica: operations applied so far (own + delivered)
   handles : Array (List (String × Ts)) := #[]  -- per replica: Document handles (name ↦ node)
+  -- service level
+  store : Store := {}
+  sclients : Array (ClientDoc × String) := #[]     -- (registration data, collection the client object is bound to)
+  wkey : Array String := #[]
+  wduid : Array String := #[]
+  wstate : Array DtState := #[]
+  wowner : Array Nat := #[]
+  held : List (Nat × List Nat × List Pack) := []
 deriving Inhabited
 
 def outcomeJ {α} (f : α → Json) : Outcome α → List (String × Json)
@@ -122,7 +131,192 @@ partial def Sim.nextUnits (s : Sim) (j n : Nat) (cur : Nat) (acc : List (List Op
     let (a, u) := s.log[cur]!
     if a = s.aid[j]! then s.nextUnits j n (cur + 1) acc else s.nextUnits j (n - 1) (cur + 1) (acc ++ [u])
 
+
+/-! ### service level -/
+
+def dtName : DtType → String
+  | .counter => "COUNTER" | .map => "MAP" | .list => "LIST" | .document => "DOCUMENT"
+def dtOfName : String → DtType
+  | "COUNTER" => .counter | "MAP" => .map | "LIST" => .list | _ => .document
+def stateName : DtState → String
+  | .dueToCreate => "DUE_TO_CREATE" | .dueToSubscribe => "DUE_TO_SUBSCRIBE"
+  | .dueToSubscribeCreate => "DUE_TO_SUBSCRIBE_CREATE" | .subscribed => "SUBSCRIBED"
+  | .dueToUnsubscribe => "DUE_TO_UNSUBSCRIBE" | .closed => "CLOSED" | .deleted => "DELETED"
+
+def Pack.optBits (p : Pack) : Nat :=
+  (if p.create then 1 else 0) + (if p.subscribe then 2 else 0) + (if p.unsubscribe then 4 else 0) +
+  (if p.delete then 8 else 0) + (if p.snapshot then 16 else 0) + (if p.error then 32 else 0) +
+  (if p.readOnly then 64 else 0)
+
+def Pack.setBits (p : Pack) (b : Nat) : Pack :=
+  { p with create := b % 2 = 1, subscribe := (b / 2) % 2 = 1, unsubscribe := (b / 4) % 2 = 1,
+           delete := (b / 8) % 2 = 1, snapshot := (b / 16) % 2 = 1, error := (b / 32) % 2 = 1,
+           readOnly := (b / 64) % 2 = 1 }
+
+def Pack.toJson (p : Pack) : Json :=
+  Json.mkObj [("key", Json.str p.key), ("duid", Json.str p.duid), ("opt", jnat p.optBits),
+              ("cp", Json.arr #[jnat p.cp.sseq, jnat p.cp.cseq]), ("typ", Json.str (dtName p.typ)),
+              ("ops", listJ Op.toJson p.ops)]
+
+def handlerJ : HandlerCall → Json
+  | .stateChange o n => Json.mkObj [("h", "state"), ("old", Json.str (stateName o)), ("new", Json.str (stateName n))]
+  | .errors cs => Json.mkObj [("h", "errors"), ("codes", listJ jnat cs)]
+  | .remoteOps _ => Json.mkObj [("h", "remote")]
+
+def Sim.wdt (s : Sim) (r : Nat) : WDt :=
+  ⟨s.reps[r]!, s.wkey[r]!, s.wduid[r]!, s.wstate[r]!⟩
+
+def Sim.setWdt (s : Sim) (r : Nat) (w : WDt) : Sim :=
+  { s with reps := s.reps.set! r w.rep, wduid := s.wduid.set! r w.duid, wstate := s.wstate.set! r w.dstate }
+
+def Sim.spost (s : Sim) (r : Nat) : List (String × Json) :=
+  let w := s.wdt r
+  [("view", w.rep.state.view), ("size", w.rep.state.sizeJ), ("opid", w.rep.opId.toJson),
+   ("dstate", Json.str (stateName w.dstate)), ("duid", Json.str w.duid),
+   ("cp", Json.arr #[jnat w.rep.cp.sseq, jnat w.rep.cp.cseq]), ("npending", jnat w.rep.pending.length)]
+
+def applyMutJ (m : Json) (p : Pack) : Pack :=
+  let p := match (m.getObjValAs? Nat "opt").toOption with | some b => p.setBits b | none => p
+  let p := match getA m "cp" with
+    | [a, b] => { p with cp := ⟨(a.getNat?).toOption.getD 0, (b.getNat?).toOption.getD 0⟩ }
+    | _ => p
+  let p := if getN m "dropops" > 0 then { p with ops := p.ops.drop (getN m "dropops") } else p
+  let p := if getB m "dupops" then { p with ops := p.ops ++ p.ops } else p
+  let p := if getB m "noops" then { p with ops := [] } else p
+  let p := if getS m "duid" ≠ "" then { p with duid := getS m "duid" } else p
+  let p := if getS m "key" ≠ "" then { p with key := getS m "key" } else p
+  let p := if getS m "typ" ≠ "" then { p with typ := dtOfName (getS m "typ") } else p
+  p
+
+def sortPacks (ps : List Pack) : List Pack :=
+  ps.foldr (fun p acc =>
+    let rec ins (p : Pack) : List Pack → List Pack
+      | [] => [p]
+      | x :: xs => if p.key ≤ x.key then p :: x :: xs else x :: ins p xs
+    ins p acc) []
+
+def storeJ (st : Store) : Json :=
+  let subs (l : List (String × SubClient)) : Json :=
+    Json.mkObj (l.map fun (c, s) => (c, Json.mkObj [("cp", Json.arr #[jnat s.cp.sseq, jnat s.cp.cseq]), ("t", jnat s.typ)]))
+  Json.mkObj [
+    ("collections", listJ (fun (c : CollectionDoc) => Json.mkObj [("name", Json.str c.name), ("num", jnat c.num)]) st.collections),
+    ("counter", optJ jnat st.counter),
+    ("clients", listJ (fun (c : ClientDoc) => Json.mkObj [("cuid", Json.str c.cuid), ("alias", Json.str c.alias),
+        ("colNum", jnat c.colNum), ("typ", jnat c.typ)]) st.clients),
+    ("datatypes", listJ (fun (d : DatatypeDoc) => Json.mkObj [("duid", Json.str d.duid), ("key", Json.str d.key),
+        ("colNum", jnat d.colNum), ("typ", Json.str (dtName d.typ)), ("begin", jnat d.sseqBegin), ("end", jnat d.sseqEnd),
+        ("visible", Json.bool d.visible), ("rw", subs d.rw), ("ro", subs d.ro)]) st.datatypes),
+    ("operations", listJ (fun (o : OpDoc) => Json.mkObj [("_id", Json.str (o.duid ++ ":" ++ toString o.sseq)),
+        ("duid", Json.str o.duid), ("colNum", jnat o.colNum), ("sseq", jnat o.sseq), ("op", o.op.toJson)]) st.operations),
+    ("snapshots", listJ (fun (x : SnapDoc) => Json.mkObj [("_id", Json.str (x.duid ++ ":" ++ toString x.sseq)),
+        ("duid", Json.str x.duid), ("colNum", jnat x.colNum), ("sseq", jnat x.sseq), ("key", Json.str x.key),
+        ("opid", x.opId.toJson), ("snap", x.snap.toJson)]) st.snapshots),
+    ("userDocs", listJ (fun (u : UserDoc) => Json.mkObj [("col", Json.str u.col), ("key", Json.str u.key),
+        ("ver", jnat u.ver), ("value", u.value.view)]) st.userDocs)]
+
+def rpcJ : Rpc α → Json
+  | .ok _ => jnat 0
+  | .rpcErr c => jnat c
+
+/-- apply response packs to the datatypes `rs` of one client -/
+def Sim.applyPacks (s : Sim) (rs : List Nat) (packs : List Pack) : Sim × Json :=
+  let (s', posts) := rs.foldl (fun (acc : Sim × List Json) r =>
+    let s := acc.1
+    let w := s.wdt r
+    match packs.find? (fun p => p.key = w.key) with
+    | none => (s, acc.2 ++ [Json.mkObj ([("r", jnat r), ("handlers", Json.arr #[])] ++ s.spost r)])
+    | some p =>
+      let (w', hs, pan) := w.applyPack p
+      let s1 := s.setWdt r w'
+      let hj := (hs.map handlerJ).map (fun j => j.compress)
+      let hj := hj.foldr (fun x acc =>
+        let rec ins (x : String) : List String → List String
+          | [] => [x]
+          | y :: ys => if x ≤ y then x :: y :: ys else y :: ins x ys
+        ins x acc) []
+      let hjson := Json.arr (hj.filterMap (fun t => (Json.parse t).toOption)).toArray
+      (s1, acc.2 ++ [Json.mkObj ([("r", jnat r), ("handlers", hjson)] ++
+          (if pan.isSome then [("panic", Json.bool true)] else []) ++ s1.spost r)])) (s, [])
+  (s', Json.arr posts.toArray)
+
+def Sim.svcStep (s : Sim) (j : Json) : Option (Sim × Json) :=
+  match getS j "k" with
+  | "scase" => some ({}, Json.mkObj [])
+  | "mkcol" =>
+    let (st, _) := s.store.makeCollection (getS j "name")
+    some ({ s with store := st }, Json.mkObj [("rpc", jnat 0)])
+  | "reset" =>
+    some ({ s with store := s.store.resetCollection (getS j "name") }, Json.mkObj [("rpc", jnat 0)])
+  | "client" =>
+    let cl : ClientDoc := ⟨getS j "cuid", getS j "alias", 0, getN j "typ", 0⟩
+    let (st, r) := s.store.processClient false (getS j "reg") cl
+    some ({ s with store := st, sclients := s.sclients.push (cl, getS j "col") }, Json.mkObj [("rpc", rpcJ r)])
+  | "newdt" =>
+    let c := getN j "c"
+    let (cl, _) := s.sclients[c]!
+    let mode := getS j "mode"
+    let typ := parseDt (getS j "dt")
+    let rep := Replica.new typ cl.cuid (mode ≠ "subscribe")
+    let dst : DtState := if mode = "create" then .dueToCreate else if mode = "subscribe" then .dueToSubscribe else .dueToSubscribeCreate
+    let s1 := { s with reps := s.reps.push rep, pubCur := s.pubCur.push 0, dlvCur := s.dlvCur.push 0,
+                       emitCur := s.emitCur.push rep.buffer.length, aid := s.aid.push s.reps.size,
+                       applied := s.applied.push [], handles := s.handles.push [("root", Ts.oldest)],
+                       wkey := s.wkey.push (getS j "key"), wduid := s.wduid.push (getS j "duid"),
+                       wstate := s.wstate.push dst, wowner := s.wowner.push c }
+    some (s1, Json.mkObj (s1.spost (s1.reps.size - 1)))
+  | "sync" =>
+    let c := getN j "c"
+    let (cl, boundCol) := s.sclients[c]!
+    let rs := (getA j "rs").map (fun x => (x.getNat?).toOption.getD 0)
+    let m := getJ j "mut"
+    let packs := rs.map (fun r => applyMutJ m (s.wdt r).createPack)
+    let cuid := if getS m "cuid" ≠ "" then getS m "cuid" else cl.cuid
+    let col := if getS m "col" ≠ "" then getS m "col" else boundCol
+    let fault := getS j "fault"
+    let send (st : Store) : Store × Rpc (List Pack) × List Notification :=
+      let (st1, r, ns, jobs) := st.processPushPull col cuid packs
+      let st2 := jobs.foldl (fun acc (duid, colNum) =>
+        match acc.collections.find? (fun c => c.num = colNum) with
+        | some cd => acc.updateSnapshot duid cd.name
+        | none => acc) st1
+      (st2, r, ns)
+    let (st1, r1, ns1) := send s.store
+    let (st2, r, ns, extra) : Store × Rpc (List Pack) × List Notification × List (String × Json) :=
+      if fault = "dup" then
+        let (st2, r2, ns2) := send st1
+        (st2, r2, ns1 ++ ns2, [("rpc2", rpcJ r2), ("resp1", match r1 with | .ok ps => listJ Pack.toJson (sortPacks ps) | _ => Json.null)])
+      else if fault = "dup1" then
+        let (st2, r2, ns2) := send st1
+        (st2, r1, ns1 ++ ns2, [("rpc2", rpcJ r2), ("resp2", match r2 with | .ok ps => listJ Pack.toJson (sortPacks ps) | _ => Json.null)])
+      else (st1, r1, ns1, [])
+    let s1 := { s with store := st2 }
+    let base : List (String × Json) :=
+      [("req", listJ Pack.toJson packs), ("rpc", rpcJ r),
+       ("resp", match r with | .ok ps => listJ Pack.toJson (sortPacks ps) | _ => Json.null),
+       ("notifs", listJ (fun (n : Notification) => Json.mkObj [("topic", Json.str n.topic), ("cuid", Json.str n.cuid),
+          ("duid", Json.str n.duid), ("sseq", jnat n.sseq)]) ns)] ++ extra
+    match r with
+    | .rpcErr _ => some (s1, Json.mkObj base)
+    | .ok ps =>
+      if fault = "drop" then some (s1, Json.mkObj base)
+      else if fault = "late" then some ({ s1 with held := (getN j "hold", rs, ps) :: s1.held }, Json.mkObj base)
+      else
+        let (s2, posts) := s1.applyPacks rs ps
+        some (s2, Json.mkObj (base ++ [("posts", posts)]))
+  | "applylate" =>
+    let h := getN j "hold"
+    match s.held.find? (fun x => x.1 = h) with
+    | none => some (s, Json.mkObj [("posts", Json.arr #[])])
+    | some (_, rs, ps) =>
+      let (s2, posts) := { s with held := s.held.filter (fun x => x.1 ≠ h) }.applyPacks rs ps
+      some (s2, Json.mkObj [("posts", posts)])
+  | "store" => some (s, Json.mkObj [("store", storeJ s.store)])
+  | _ => none
+
 def Sim.step (s : Sim) (j : Json) : Sim × Json :=
+  match s.svcStep j with
+  | some r => r
+  | none =>
   match getS j "k" with
   | "case" =>
     let typ := parseDt (getS j "dt")
@@ -143,6 +337,8 @@ def Sim.step (s : Sim) (j : Json) : Sim × Json :=
     | some c =>
       let (r', o) := s.reps[i]!.call c
       let s1 := { s with reps := s.reps.set! i r' }
+      if s.wkey.size > 0 then (s1, Json.mkObj (outcomeJ Ret.toJson o ++ s1.spost i))
+      else
       let (s2, p) := s1.post i
       (s2, Json.mkObj (outcomeJ Ret.toJson o ++ p))
   | "tx" =>
